@@ -19,7 +19,11 @@ theorem readHeader_cons (a b c d e f : UInt8) (r : Bytes) :
                             vendorId := word16 c d, attributeType := word16 e f })) r := by
   have h : ¬ (r.length + 1 + 1 + 1 + 1 + 1 + 1 < 6) := by omega
   unfold hdrLen
-  by_cases hl : a.toNat / 64 * 256 + b.toNat < 6 <;> simp [readHeader, h, hl]
+  by_cases hl : a.toNat / 64 * 256 + b.toNat < 6
+  · simp [readHeader, h, hl]
+  · have hs : (subM (a.toNat / 64 * 256 + b.toNat) 6 : M Bytes DErr Nat) r = .ok (a.toNat / 64 * 256 + b.toNat - 6) r :=
+      subM_ok (by omega) r
+    simp [readHeader, h, hl, hs]
 
 theorem hdrLen_lt (a b : UInt8) : hdrLen a b < 1024 := by
   unfold hdrLen
